@@ -943,12 +943,31 @@ func (s *Stream) upgrade(uri *url.URL, stream sonic.Stream, headers []Header) er
 		return err
 	}
 
-	s.handshakeBuffer = s.handshakeBuffer[:cap(s.handshakeBuffer)]
-	n, err := stream.Read(s.handshakeBuffer)
-	if err != nil {
-		return err
+	// The response may arrive in several segments and may be longer than the
+	// buffer: read until the blank line that ends it is there.
+	s.handshakeBuffer = s.handshakeBuffer[:0]
+	for headerEnd(s.handshakeBuffer) < 0 {
+		if len(s.handshakeBuffer) == cap(s.handshakeBuffer) {
+			if cap(s.handshakeBuffer) >= maxHandshakeResponseLength {
+				return fmt.Errorf(
+					"handshake response exceeds %d bytes",
+					maxHandshakeResponseLength,
+				)
+			}
+			grown := make(
+				[]byte,
+				len(s.handshakeBuffer),
+				min(2*cap(s.handshakeBuffer), maxHandshakeResponseLength),
+			)
+			copy(grown, s.handshakeBuffer)
+			s.handshakeBuffer = grown
+		}
+		n, err := stream.Read(s.handshakeBuffer[len(s.handshakeBuffer):cap(s.handshakeBuffer)])
+		s.handshakeBuffer = s.handshakeBuffer[:len(s.handshakeBuffer)+n]
+		if err != nil && headerEnd(s.handshakeBuffer) < 0 {
+			return err
+		}
 	}
-	s.handshakeBuffer = s.handshakeBuffer[:n]
 	rd := bytes.NewReader(s.handshakeBuffer)
 	res, err := http.ReadResponse(bufio.NewReader(rd), req)
 	if err != nil {
@@ -983,6 +1002,27 @@ func (s *Stream) upgrade(uri *url.URL, stream sonic.Stream, headers []Header) er
 	}
 
 	return nil
+}
+
+// Upper bound for the size of the server's handshake response.
+const maxHandshakeResponseLength = 64 * 1024
+
+// headerEnd returns the length of the HTTP header block at the start of b, up
+// to and including the blank line that ends it, or -1 if that line is not in b
+// yet. Like net/http, a bare LF is accepted as a line terminator.
+func headerEnd(b []byte) int {
+	for i := 0; i < len(b); i++ {
+		if b[i] != '\n' {
+			continue
+		}
+		if i+1 < len(b) && b[i+1] == '\n' {
+			return i + 2
+		}
+		if i+2 < len(b) && b[i+1] == '\r' && b[i+2] == '\n' {
+			return i + 3
+		}
+	}
+	return -1
 }
 
 // makeHandshakeKey generates the key of Sec-WebSocket-Key header as well as the
